@@ -781,7 +781,19 @@ def _vectorize_func(func):
 
     # What should work once that Jax backend is fully supported
     signature = inspect.signature(func)
-    func_vec = numpy.vectorize(func)
+    # Fix the dtype of the result via the return annotation. Otherwise, numpy.vectorize
+    # infers it from the value returned for the first row only, and the values of all
+    # other rows are cast to that type (e.g., truncated to int).
+    return_annotation = getattr(func, "__annotations__", {}).get("return")
+    otypes = {
+        float: [float],
+        int: [int],
+        bool: [bool],
+        "float": [float],
+        "int": [int],
+        "bool": [bool],
+    }.get(return_annotation)
+    func_vec = numpy.vectorize(func, otypes=otypes)
 
     @functools.wraps(func)
     def wrapper_vectorize_func(*args, **kwargs):
